@@ -87,6 +87,31 @@ DESC = {
     "C19/r2m2": ("Orbax save and restore_checkpoint handle nnx.Param only", "tanh policy head, template with other non-Param variables"),
     "C20/r2m1": ("OrbaxCheckpointer.save_model saves nnx.Param only", "module with non-Param variables, restore into its full state"),
     "C20/r2m2": ("LoggerList.record_stat forwards (key, value, step, episode) positionally", "explicit episode / step through a LoggerList"),
+    # ---- third round (12 properties)
+    "C01/r3m1": ("EpisodeDataset._nest_observations derives successors by shifting the observation list", "a data set with at least two episodes (train_ac)"),
+    "C01/r3m2": ("train_dynaq allocates reward_history with [[]] * n_states (shared lists)", "stochastic successors with different rewards"),
+    "C03/r3m1": ("mrq_loss drops the target_reward_scale conversion", "target_reward_scale != reward_scale, non-terminated window"),
+    "C03/r3m2": ("ddqn_per_loss swaps the selecting and the evaluating network", "target network differing from the online one"),
+    "C05/r3m1": ("EntropyControl.update caches a split of (optimizer, policy, alpha) and writes all three back", "update, actor update, update again on one EntropyControl"),
+    "C05/r3m2": ("EntropyCoefficient.__call__ clamps log_alpha in place", "log_alpha outside [-10, 2]; plain loss evaluation"),
+    "C06/r3m1": ("train_ddpg soft-updates once per environment step instead of per gradient step", "gradient_steps > 1"),
+    "C06/r3m2": ("target updates read nnx.state(..., nnx.Param) only", "policy head whose action scale / bias differ between online and target"),
+    "C09/r3m1": ("train_dqn: `if not seed: seed = time.time_ns() ...`", "seed = 0"),
+    "C09/r3m2": ("prioritized_sampling falls back to an unseeded generator; SubtrajectoryReplayBufferPER no longer forwards rng", "train_mrq past learning_starts"),
+    "C10/r3m1": ("DeterministicTanhPolicy stores action_scale / action_bias as nnx.Param (they get trained)", "actor updates, then the policy output for huge network outputs"),
+    "C10/r3m2": ("train_mrq swaps exploration_noise and target_policy_noise", "exploration_noise != target_policy_noise"),
+    "C11/r3m1": ("sample_trajectories stops on len > total_steps (counter incremented after the test)", "episodes ending exactly at steps_per_update samples"),
+    "C11/r3m2": ("smt_stage1 zeroes training_steps of a task re-entering the pool", "a task re-entering the training pool"),
+    "C12/r3m1": ("reinforce_gradient applies the step discount before subtracting the baseline", "baseline and non-unit gamma_discount together"),
+    "C12/r3m2": ("sac_actor_loss indexes q(...)[..., 0] instead of squeeze()", "critic with output shape (N,), batch >= 2"),
+    "C13/r3m1": ("GaussianTanhPolicy.sample clips the draw to the action box", "a draw leaving the box"),
+    "C13/r3m2": ("train_sarsa carries next_action chosen before the table update", "self-transition whose update changes the row's arg-max, epsilon 0"),
+    "C15/r3m1": ("TD7: `if update_checkpoint:` block moved out of the episode-end branch (flag stays true)", "steps after an accepted window"),
+    "C15/r3m2": ("window reset no longer resets min_return", "two windows with different returns"),
+    "C17/r3m1": ("aggregate variance as mean(exp(lv) + m^2) - mean^2 (cancellation)", "large common offset of the member means, tiny variance"),
+    "C17/r3m2": ("__call__ returns early for 3-D input, skipping the soft log-variance bounds", "one batch per member (3-D input)"),
+    "C19/r3m1": ("SubtrajectoryReplayBuffer.__setstate__ resets episode_timesteps", "buffer pickled mid-episode, then further additions"),
+    "C19/r3m2": ("restore_checkpoint updates and returns the template itself", "two restores through one template"),
     "C20/m2": ("record_stat: `episode = episode or counter`", "explicit episode=0 / step=0 after the counters moved"),
 }
 
